@@ -4,6 +4,8 @@ import itertools
 from .. import progen
 from ..progen import I, L, S
 from ..progcheck import ProgCheck
+from ..core import Case
+from ..run import hx
 
 I64MIN, I64MAX = -2 ** 63, 2 ** 63 - 1
 
@@ -19,7 +21,12 @@ class C06(ProgCheck):
             "container methods); (d) forall: table sizes 0..4 and null x direction x variable/temporary source x read / write "
             "through the iterator / break / continue / raise / return at each index, nested forall on one and on two tables, "
             "then the table is changed and the iterator retyped (constraints released). Observed: printed iterator sequence, returned value, every variable "
-            "after the run, control/exec depth and constraint flags (BLOC_VERIF accessors). distinct = program text.")
+            "after the run, control/exec depth and constraint flags (BLOC_VERIF accessors). (e) the compile-time lock of a traversed table: "
+            "forall bodies holding, at every nesting position (plain, in if / while / for / begin / a nested forall on the same or another table, "
+            "inside an expression), a statement the lock must refuse (assignment to the table, for/forall registering its name, the four "
+            "mutating members, assignment through the iterator of a nested traversal of the same table) or one it must accept (reads, other "
+            "table, write through the outer iterator, the same statement after the loop): Parser::parse answers EXC_PARSE_CONST_VIOLATION "
+            "exactly when the model's `lockProgram` refuses. distinct = program text.")
 
     def hazard_kf(self, c, hazard):
         # no hazard outcome of the model is a listed finding of this property any more: the null control variable
@@ -67,6 +74,47 @@ class C06(ProgCheck):
                               ("if", [(("bin", "GT", ("var", "N"), I(10)), [("break",)])]),
                               ("if", [(("bin", "EQ", ("bin", "MOD", ("var", "N"), I(2)), I(1)), [("let", "K", ("bin", "ADD", ("var", "K"), I(delta)))])])])]
                     add(prog, {"family": "for-modify"})
+        # bodies that ASSIGN the control variable (manual: allowed, the loop continues from the assigned value): step x direction x
+        # assigned value (inside the range, the limit, limit+-1, every value of the last partial-step window, beyond the limit, near
+        # INT64_MAX / MIN, null -> NOT_INTEGER) x position of the assignment (first / last statement, inside an if) x iteration at which
+        # it happens; the trace of visited values is printed
+        na = 0
+        for step in (1, 2, 3, 5, I64MAX):
+            for d in ("auto", "asc", "desc"):
+                for b, e in ((0, 10), (10, 0), (-3, 4), (I64MAX - 12, I64MAX), (I64MIN + 12, I64MIN), (2, 2)):
+                    up = e >= b
+                    if (d == "asc" and not up and e != b) or (d == "desc" and up and e != b):
+                        continue
+                    sg = 1 if up else -1
+                    stp = min(step, 20) if step != I64MAX else step
+                    window = [e - sg * w for w in range(0, min(stp, 6))] if step != I64MAX else [e, e - sg]
+                    vals = sorted(set([b, b + sg, e - sg * stp, e - sg, e] + window + ([e + sg, e + sg * stp] if abs(e) < 2 ** 62 else [])
+                                      + [I64MAX, I64MAX - 1, I64MIN, I64MIN + 1] + ["null"]), key=lambda x: (isinstance(x, str), x if not isinstance(x, str) else 0))
+                    for a in vals:
+                        if a != "null" and not (I64MIN <= a <= I64MAX):
+                            continue
+                        if quick and (na % 3) and a not in window and a != "null":
+                            na += 1
+                            continue
+                        av = L("N:i0") if a == "null" else I(a)
+                        for pos in ("first", "last", "if"):
+                            for at in ((1,) if quick else (1, 2)):
+                                cond = ("bin", "EQ", ("var", "N"), I(at))
+                                asg = ("if", [(cond, [("let", "K", av)])])
+                                core = [("print", [("var", "K")])]
+                                if pos == "first":
+                                    body = [("let", "N", ("bin", "ADD", ("var", "N"), I(1))), asg] + core
+                                elif pos == "last":
+                                    body = [("let", "N", ("bin", "ADD", ("var", "N"), I(1)))] + core + [asg]
+                                else:
+                                    body = [("let", "N", ("bin", "ADD", ("var", "N"), I(1)))] + core + \
+                                           [("if", [(("bin", "GT", ("var", "N"), I(0)), [("if", [(cond, [("let", "K", av), ("print", [S("set")])])])])])]
+                                body.append(("if", [(("bin", "GT", ("var", "N"), I(14)), [("break",)])]))
+                                prog = [("let", "N", I(0)), ("for", "K", I(b), I(e), (None if step == 1 and na % 2 else I(step)), d, body),
+                                        ("print", [S("after"), ("var", "N")])]
+                                add(prog, {"family": "for-assign"})
+                                na += 1
+        self.stats["for_assign_cases"] = sum(1 for c in cases if c.meta.get("family") == "for-assign")
         # bodies that set the control variable to null: the re-entry raises NOT_INTEGER (model: `rerr 8`), whatever the null's type,
         # the iteration, the direction, the way the body ends; NOT_INTEGER is not catchable (`when others` does not match it)
         add([("for", "K", I(1), I(3), None, "auto", [("let", "K", L("N:i0"))])], {"family": "for-null-iterator"})
@@ -171,7 +219,131 @@ class C06(ProgCheck):
                     add(prog, {"family": "forall-nest"})
         # random structured programs with loop emphasis
         for k in range(400 if quick else 6000):
-            g = progen.Gen(self.rng, nvars=2, funcs=(k % 3 == 0), errors=0.06, tables=(0.3 if k % 2 else 0.0))
+            g = progen.Gen(self.rng, nvars=2, funcs=(k % 3 == 0), errors=0.06, tables=(0.3 if k % 2 else 0.0),
+                           errrec=(0.05 if k % 4 == 1 else 0.0), extras=(0.15 if k % 4 == 2 else 0.0))
             add(g.program(nstmts=self.rng.randint(3, 7), depth=3), {"family": "random"})
-        self.stats["cases"] = n
+            for kk, vv in g.stats.items():
+                if kk.startswith(("error-", "handler-reports", "function-clause", "function-reads", "isnull")):
+                    self.stats.setdefault("int_random", {})[kk] = self.stats.get("int_random", {}).get(kk, 0) + vv
+        cases += self.lock_cases(quick)
+        self.stats["cases"] = len(cases)
         return cases
+
+    # ------------------------------------------------------------------ the compile-time lock (model: lockProgram; driver command `lockchk`)
+    def lock_cases(self, quick):
+        r = self.rng
+        T, U = ("var", "TT"), ("var", "UU")
+        init = [("let", "TT", ("call", "tab", [I(2), I(1)])), ("let", "UU", ("call", "tab", [I(1), I(2)])), ("let", "X", I(0))]
+
+        def mut(tv, m):
+            if m == "delete":
+                return ("do", ("member", "delete", tv, [I(0)]))
+            if m == "concat":
+                return ("do", ("member", "concat", tv, [I(9)]))
+            return ("do", ("member", m, tv, [I(0), I(7)]))
+
+        # statements over table variable `tv` (refused iff tv is locked), and neutral ones
+        def atoms(tv):
+            name = tv[1]
+            return {
+                "assign": ("let", name, ("call", "tab", [I(1), I(3)])),
+                "assign-copy": ("let", name, U if tv == T else T),
+                "put": mut(tv, "put"), "insert": mut(tv, "insert"), "delete": mut(tv, "delete"), "concat": mut(tv, "concat"),
+                "in-expr": ("let", "X", ("member", "count", ("member", "insert", tv, [I(0), I(1)]), [])),
+                "count": ("let", "X", ("member", "count", tv, [])),
+                "at": ("let", "X", ("member", "at", tv, [I(0)])),
+                "nested-write": ("forall", "F", tv, "auto", [("let", "F", I(5))]),
+                "nested-read": ("forall", "F", tv, "auto", [("print", [("var", "F")])]),
+                "nested-mutate": ("forall", "F", tv, "auto", [mut(tv, "delete")]),
+            }
+
+        def wrap(kind, st):
+            if kind == "if":
+                return ("if", [(("bin", "EQ", ("var", "X"), I(0)), [st])])
+            if kind == "else":
+                return ("if", [(("bin", "EQ", ("var", "X"), I(1)), [("nop",)]), (None, [st])])
+            if kind == "while":
+                return ("while", ("bin", "LT", ("var", "X"), I(0)), [st])
+            if kind == "for":
+                return ("for", "KK", I(1), I(1), None, "auto", [st])
+            if kind == "begin":
+                return ("begin", [st], [("OTHERS", [("nop",)])])
+            if kind == "handler":
+                return ("begin", [("nop",)], [("OTHERS", [st])])
+            if kind == "forall-other":
+                fresh[0] += 1
+                return ("forall", "G%d" % fresh[0], U, "auto", [st])    # a fresh iterator per level: reusing a running iterator is another error
+            return st
+
+        wraps = ["plain", "if", "else", "while", "for", "begin", "handler", "forall-other"]
+        fresh = [0]
+        cases = []
+        dist = {}
+        n = 0
+
+        def add(prog, what):
+            nonlocal n
+            n += 1
+            dist[what] = dist.get(what, 0) + 1
+            src = progen.program_src(prog)
+            cases.append(Case("l%d" % n, "lockchk %s" % hx(progen.program_sexp(prog)), "new 0|prog 0 %s" % hx(src),
+                              {"family": "lock", "src": src, "what": what}))
+
+        for tv in (T, U):
+            for an, st in atoms(tv).items():
+                for w in wraps:
+                    if quick and tv == U and w not in ("plain", "if", "forall-other"):
+                        continue
+                    body = [("print", [("var", "E")]), wrap(w, st)]
+                    add(init + [("forall", "E", T, "auto", body), ("print", [S("end")])], "%s/%s/%s" % ("locked" if tv == T else "other", an, w))
+                # the same statement after the loop: the lock is released
+                add(init + [("forall", "E", T, "auto", [("print", [("var", "E")])]), st, ("print", [S("end")])], "after-loop/" + an)
+        # write through the outer iterator (accepted); through the iterator when the table was locked by an enclosing traversal (refused)
+        add(init + [("forall", "E", T, "auto", [("let", "E", I(4))])], "iterator-write/outer")
+        add(init + [("forall", "E", T, "auto", [("forall", "F", T, "auto", [("let", "E", I(4))])])], "iterator-write/outer-from-inner")
+        add(init + [("forall", "E", T, "auto", [("forall", "F", T, "auto", [("let", "F", I(4))])])], "iterator-write/inner-locked")
+        add(init + [("forall", "E", T, "auto", [("forall", "F", U, "auto", [("let", "F", I(4))])])], "iterator-write/inner-other")
+        add(init + [("forall", "E", T, "auto", [("for", "TT", I(1), I(2), None, "auto", [("nop",)])])], "register/for")
+        add(init + [("forall", "E", T, "auto", [("forall", "TT", U, "auto", [("nop",)])])], "register/forall")
+        # a function body is compiled in its own context: the caller's lock does not reach it
+        fn = ("func", "FM", [], "i", [("let", "TT", ("call", "tab", [I(1), I(1)])), ("do", ("member", "put", ("var", "TT"), [I(0), I(2)])), ("return", I(1))], [])
+        add([fn] + init + [("forall", "E", T, "auto", [("let", "X", ("fcall", "FM", []))])], "function-own-context")
+        for _ in range(150 if quick else 3000):
+            # random nesting depth 1..3 of wraps around a random atom on a random table, inside forall over TT (and sometimes also over UU)
+            tv = r.choice([T, U])
+            an, st = r.choice(list(atoms(tv).items()))
+            for _k in range(r.randint(0, 3)):
+                st = wrap(r.choice(wraps), st)
+            body = [st]
+            outer = ("forall", "E", T, r.choice(["auto", "asc", "desc"]), body)
+            if r.random() < 0.3:
+                outer = ("forall", "H", U, "auto", [outer])
+            add(init + [outer], "random")
+        self.stats["lock_cases"] = n
+        self.stats["lock_distribution"] = {k.split("/")[0] + "/" + (k.split("/")[1] if "/" in k else ""): 0 for k in dist}
+        for k, v in dist.items():
+            kk = k.split("/")[0] + "/" + (k.split("/")[1] if "/" in k else "")
+            self.stats["lock_distribution"][kk] += v
+        return cases
+
+    def judge(self, c, iraw, m, stderr):
+        if c.meta.get("family") != "lock":
+            return ProgCheck.judge(self, c, iraw, m, stderr)
+        impl = iraw.split("|")[-1] if not iraw.startswith("crash") else iraw
+        self.tally(c, "lock " + " ".join(impl.split(" ")[:2]) if impl.startswith("perr") else "lock accepted", m)
+        self.distinct.add((c.model_line,))
+        mout = m.get("model")
+        if mout is None or mout == "bad-prog":
+            return self.record_violation("model gave no answer", c, impl, m)
+        refused = impl.startswith("perr 32")
+        d = self.stats.setdefault("lock_outcomes", {})
+        key = ("refused" if mout.startswith("perr") else "accepted")
+        d[key] = d.get(key, 0) + 1
+        if impl.startswith("crash"):
+            return self.record_violation("lock program crashed", c, impl, m, stderr)
+        if c.meta.get("what") == "register/forall":
+            # a locked NAME used as the iterator of another forall is refused as well, but an earlier test of FORALLStatement::parse
+            # answers first (EXC_PARSE_OTHER_S): only "refused" is compared
+            refused = impl.startswith("perr")
+        if mout.startswith("perr") != refused or (not refused and impl.startswith("perr")):
+            return self.record_violation("the parser's lock decision differs from the model (lockProgram)", c, impl, m, stderr)
